@@ -1898,7 +1898,12 @@ impl KotoVm {
             self,
             RemainderAssign,
             remainder_assign,
-            |a: &KNumber, b: &KNumber| a % b,
+            |a: &KNumber, b: &KNumber| match b {
+                // Match the behaviour of the remainder operator when the divisor is integer zero,
+                // avoid a panic and return NaN instead.
+                KNumber::I64(0) => KNumber::from(f64::NAN),
+                _ => a % b,
+            },
             lhs,
             rhs
         )
